@@ -507,3 +507,72 @@ def plan_C03(tier, seed):
         "jobs": jobs, "primary_jobs": ["roundtrip-chk"], "eval_counters": ["roundtrips"], "floors": fl,
         "assumptions": ["values constructible only by struct literal outside the grammar (Justice(&[]), empty symbol, symbol starting with ';', names with newlines) are not in the domain"],
     }
+
+
+def plan_C10(tier, seed):
+    mib = q(tier, 64, 512)
+    jobs = [
+        Job("stream-rel", "rel", "c10", 192, {"mib": mib}, crash_is_violation=True, wall_limit=7200),
+        Job("stream-chk", "chk", "c10", 192, {"mib": q(tier, 8, 64)}, crash_is_violation=True, wall_limit=7200),
+    ]
+    if tier == "thorough":
+        jobs.append(Job("stream-1g", "rel", "c10", 24, {"mib": 1024}, crash_is_violation=True, wall_limit=7200))
+    return {
+        "level": "exploration",
+        "exhaustive": True,
+        "rule": "the complete grid {cnf, wcnf, gcnf, btor2, aag section readers, aig section readers} x chunk size "
+                "{64,4096,16384,65536} x read size {1,7,chunk,random} x item profile {all small; one 1 MiB comment line early, "
+                "then small (text formats)} = 192 configurations; each streams N = %d MiB (rel build; chk build with less) "
+                "generated on the fly (never materialised, items dropped at once; 10^6..10^8 items; the AIGER headers declare "
+                "10^6..10^8 gates which the section API must not pre-allocate). Oracle: peak live heap of the whole run "
+                "(counting global allocator, exact maximum) <= 8*chunk + 4*largest_item + 16 KiB, which does not depend on N "
+                "and is about twice what the pinned tree needs (4*chunk + <300 B; 2*item for the big comment). Evidence also "
+                "records the peak after the first half of the items and the live heap at the end (plateau, not judged). Every "
+                "configuration is distinct and non-trivial (each streams at least 4x, all-small profiles at least 100x, its "
+                "bound)." % mib,
+        "jobs": jobs, "primary_jobs": ["stream-rel"], "eval_counters": ["streams"],
+        "floors": {"streams": 2 * 192, "streams_100x_bound": 150, "items": q(tier, 500_000_000, 4_000_000_000),
+                   "distinct_nontrivial": 150},
+        "assumptions": ["N is bounded (64 MiB quick, 512 MiB / 1 GiB thorough); the claim for larger N rests on the bound not depending on N"],
+    }
+
+
+def plan_C12(tier, seed):
+    n = q(tier, 64_000, 4_000_000)
+    jobs = [
+        Job("wellformed-chk", "chk", "c12", n, {"mode": "wellformed", "rounds": q(tier, 4, 64)}, cpu_limit=60,
+            crash_is_violation=True),
+        Job("wellformed-rel", "rel", "c12", n, {"mode": "wellformed", "rounds": q(tier, 4, 64)}, cpu_limit=60,
+            crash_is_violation=True),
+        Job("illformed-chk", "chk", "c12", n, {"mode": "illformed"}, cpu_limit=60, crash_is_violation=True),
+        Job("illformed-rel", "rel", "c12", n, {"mode": "illformed"}, cpu_limit=60, crash_is_violation=True),
+        Job("deep-rel", "rel", "c12", q(tier, 24, 48), {"mode": "deep", "deep_log2": q(tier, 20, 23)}, cpu_limit=600,
+            crash_is_violation=True),
+        Job("deep-chk", "chk", "c12", 16, {"mode": "deep", "deep_log2": q(tier, 18, 21)}, cpu_limit=600,
+            crash_is_violation=True),
+    ]
+    return {
+        "level": "exploration",
+        "rule": "well-formed: random AIGs (arbitrary sparse unordered even literal numbering incl. max_var_index at the type's "
+                "limit, gate order shuffled against dependency order, constants and negated literals as gate inputs, x&x, "
+                "x&!x, duplicate gates, unused gates, 0..k of every section, symbols/comment, all five literal types) x all 8 "
+                "(trim, structural_hash, const_fold) combinations. Checked per result: inputs then latches then gates "
+                "numbered consecutively, max_var_index = their count, every gate's inputs numbered below it with the larger "
+                "first, every output / latch next-state / bad / constraint / justice / fairness literal evaluates identically "
+                "in original and result (independent iterative simulator, 64 assignments per word: exhaustive truth tables up "
+                "to 6 inputs+latches, else R random rounds), lit_map.get(l) evaluates like l for every defined literal of "
+                "either polarity, reset values / symbols / comment carried over, and the result survives the binary writer "
+                "and parser unchanged. ill-formed: exactly one reachable defect each - combinational cycle (self loop or "
+                "length 2, either polarity, through either input), undefined literal (root or gate input), doubly defined "
+                "literal (input/latch/gate against input/latch/gate/negation/constant) - must yield FoundCycle / "
+                "LitNotDefined / LitAlreadyDefined under all 8 option sets. deep: chains and DAGs of 2^%d gates renumbered in a "
+                "thread with a 256 KiB stack within the CPU budget and checked by simulation. Non-trivial = well-formed graph "
+                "with >= 2 gates and >= 1 root, or any ill-formed graph; distinct by hash of the graph." % q(tier, 20, 23),
+        "jobs": jobs, "primary_jobs": ["wellformed-chk", "illformed-chk", "deep-rel"], "eval_counters": ["renumberings"],
+        "floors": {"renumberings": q(tier, 1_500_000, 100_000_000), "lit_map_checks": 10_000_000,
+                   "literal_comparisons": 20_000_000, "results_with_fewer_gates": 100_000,
+                   "defect:FoundCycle": 10_000, "defect:LitNotDefined": 10_000, "defect:LitAlreadyDefined": 10_000,
+                   "deep_graphs": 40, "lit:u8": 1000, "lit:usize": 1000,
+                   "distinct_nontrivial": q(tier, 60_000, 3_000_000)},
+        "assumptions": ["'arbitrarily deep' is restated as depth 2^20 (quick) / 2^23 (thorough) within 600 CPU-seconds on a 256 KiB stack"],
+    }
